@@ -265,7 +265,9 @@ def enum_dispatch(ctx: Ctx, fq: str, subject: str, fallthrough: Optional[Dict[st
                         pinned = True
                     if (not pol) and isinstance(atom.ops[0], (ast.NotEq, ast.IsNot, ast.NotIn)):
                         pinned = True
-            other_guards = [a for a, pol in fs if not any(a is c for c, _, _ in items) and (norm(a), pol) not in common]
+            item_ids = {id(c) for c, _, _ in items}
+            other_guards = [a for a, pol in fs if not any(a is c for c, _, _ in items) and (norm(a), pol) not in common
+                            and not (isinstance(a, ast.BoolOp) and any(id(x) in item_ids for x in ast.walk(a)))]
             if not pinned and not other_guards:
                 covered_by_raise = True
     short = enum_cls.rsplit(".", 1)[-1]
